@@ -41,6 +41,31 @@ input, therefore
        closure, ties it to the absolute oracles).  Dephasing section: the one route of the case
        is run twice on one object.
 
+Step refinement (every section that propagates).  The propagator can do Nref sub-steps between
+two stored points, requested by propagate(rho, Nref=k) or by setDtRefinement(k).  Nref in
+{1, 2, 5} x both ways of requesting it is a complete sub-product inside every grid point: the
+spanning set is propagated by all three routes in all three bases on the axes with the step
+m*dt (dt = step of the base axis), m in {2, 5}:
+  * time-independent generators (redfield, lindblad): Nref = m.  Route agreement (operator /
+    four-index / converted form) as on the base axis, and refinement consistency: the m
+    sub-steps are exactly the steps of the base axis, so the run with Nref = m on the axis
+    (nc, m*dt) must give the points 0, m, 2m, ... of the run of the same route with Nref = 1 on
+    the axis of the sub-steps (the base run), and of the reference Taylor polynomial.  Both runs
+    apply the same polynomial of the same step: the truncation bound of their difference is
+    zero, what is left is class R.
+  * time-dependent tensors (td): the four-index routine samples the tensor on the BATH axis
+    with the stride m/Nref per sub-step and refuses every Nref that does not divide m (so on
+    the bath axis itself no refinement is possible); all admissible (m, Nref) = (2,1), (2,2),
+    (5,1), (5,5) are run, the bath axis staying the base axis.  Claimed: route agreement; the
+    refinement consistency only for Nref = m without a tensor cut-off time (the sub-steps are
+    then the points of the bath axis, where the tensor is given; what a longer sub-step or a
+    cut-off looked up on the coarser axis should use is not part of the property).
+  * dephasing: the TD tensor of the case on the axes (., m*dt) with Nref = m does the steps of
+    the bath axis: analytic solution and first-order bound of the bath axis at the stored points.
+The refined axes have REFNC stored points (quick 4, thorough 8; with a tensor cut-off time as
+many as needed to contain it: the propagator looks the cut-off time up on its own axis).  The
+shared-initial-state histories are run on the base axis only.
+
 Tolerances: R = 1e-10 * scale for every identity between representations; (d) computed bound
 exp(D+E)-1 (D = dt * int|C|, E = accumulated Taylor remainder), see lineshape_ob.
 """
@@ -170,12 +195,71 @@ def _sequences(depth):
     return out
 
 
-def _propagate(acc, kind, B, k, P, rho, kwargs, nref, cut, sfx="", tag="general"):
+NREFS = (2, 5)            # refinements besides Nref = 1
+VIAS = ("arg", "set")     # propagate(rho, Nref=k) / setDtRefinement(k); propagate(rho)
+
+
+def _refinements(td):
+    """All (m, k, via): propagation axis with the step m*dt (dt = step of the base axis, which
+    is the bath axis of a time-dependent tensor), k sub-steps per stored step, requested `via`.
+    Time-independent generators: k = m (the sub-steps are the steps of the base axis; the axis
+    ratio means nothing to a constant tensor).  Time-dependent tensors: every k in {1, 2, 5}
+    that divides m -- the four-index routine samples the tensor on the bath axis with the
+    stride m/k and refuses every other k ("Incompatible number of refinement steps")."""
+    out = []
+    for m in NREFS:
+        if td:
+            out.append((m, 1, "default"))
+        for via in VIAS:
+            out.append((m, m, via))
+    return out
+
+
+def _vlab(var, td):
+    m, k, via = var
+    if td:
+        return "step-ratio=%d/Nref=%d%s" % (m, k, "" if k == 1 else "-" + via)
+    return "Nref=%d-%s" % (k, via)
+
+
+def _refine_spec(case):
+    """case["refnc"]: stored points of the refined axes (0 = as many as fit into the base
+    axis); absent = no refinement variants"""
+    if case.get("refnc") is None:
+        return None
+    return {"ncmax": int(case["refnc"])}
+
+
+def _coarse_length(nt, m, ncmax, dt=1.0, cutoff=None):
+    """points of the axis with the step m*dt that lies inside the base axis of nt points: at
+    most ncmax (0: all that fit), but with a tensor cut-off time enough of them that the axis
+    contains it (the propagator looks the cut-off time up on ITS axis and raises "Value out of
+    bounds" otherwise) and one step more."""
+    fit = (int(nt) - 1) // m + 1
+    nc = min(fit, int(ncmax)) if ncmax else fit
+    if cutoff:
+        need = int(numpy.floor(float(cutoff) / (m * float(dt)))) + 2
+        if need > fit:
+            raise isolation.HarnessError("cut-off time beyond the refined axis")
+        nc = max(nc, need)
+    if nc < 3:
+        raise isolation.HarnessError("refined axis has fewer than two stored steps")
+    return nc
+
+
+def _propagate(acc, kind, B, k, P, rho, kwargs, nref, cut, sfx="", tag="general", via="set"):
     """ONE propagate() call in the current context.  Returns the evolution (None if the call
     raised IndexError, reported).  Input non-interference: the caller's initial-state object
-    must be bit-identical after the call (read in the same context before and after)."""
+    must be bit-identical after the call (read in the same context before and after).
+    A step refinement nref > 1 is requested with setDtRefinement (via="set") or with the
+    argument of propagate (via="arg")."""
     if nref > 1:
-        P.setDtRefinement(nref)
+        if via == "arg":
+            kwargs = dict(kwargs, Nref=int(nref))
+        elif via == "set":
+            P.setDtRefinement(nref)
+        else:
+            raise isolation.HarnessError("unknown way of requesting a refinement: " + str(via))
     before = numpy.array(rho.data, copy=True)
     try:
         ev = P.propagate(rho, **kwargs)
@@ -436,6 +520,84 @@ def _check_forms(acc, kind, mk_op, mk_tensor, ham, Xop, N, ref_from_op, prop):
     return Tref
 
 
+def _check_refined(acc, kind, B, variants, conv_key, states, base, ref, ham, Xop, kwargs, cut,
+                   td):
+    """All step-refinement variants in one basis (one entry of the context: entering and
+    leaving transforms every tensor): the spanning set is propagated with all three routes on
+    the axis (nc, m*dt) with k sub-steps per stored step.
+
+    Route agreement as for the base axis.  Time-independent generators (k = m): the k
+    sub-steps ARE the steps of the base axis, so the stored points must be the points
+    0, m, 2m, ... of the base run of the same route with Nref = 1 (`base`, read after the
+    context is left) -- both runs apply the same polynomial of the same step, the truncation
+    bound of their difference is zero and class R is left -- and the reference Taylor
+    polynomial at those points.  Time-dependent tensors: route agreement; the same consistency
+    only for k = m without a cut-off time (the sub-steps are then the steps of the bath axis,
+    on which the tensor is given: no value between two bath points is needed)."""
+    from quantarhei.qm import ReducedDensityMatrix
+    rhos = {(vlab, tag, r): ReducedDensityMatrix(data=s.copy())
+            for _, vlab, _, _, _ in variants for tag, s in states for r in ROUTES}
+    got, objs = {}, {}
+    with _basis(B, ham, Xop):
+        for var, vlab, nc, vp, vc in variants:
+            routes = {"op": vp["op"], "tensor": vp["tensor"], "conv": vc[conv_key]}
+            for tag, s in states:
+                for r in ROUTES:
+                    ev = _propagate(acc, kind, B, r, routes[r], rhos[(vlab, tag, r)], kwargs,
+                                    var[1], cut, sfx="/" + vlab, tag=tag, via=var[2])
+                    if ev is None:
+                        continue
+                    got[(vlab, tag, r)] = _arr(ev.data)
+                    objs[(vlab, tag, r)] = ev
+    for var, vlab, nc, vp, vc in variants:
+        m, k, via = var
+        pick = slice(0, m * (nc - 1) + 1, m)
+        for tag, s in states:
+            g = {r: got[(vlab, tag, r)] for r in ROUTES if (vlab, tag, r) in got}
+            for r, x in g.items():
+                if x.shape[0] != nc:
+                    acc.add("b/refine/%s/%s/%s/%s/stored-points" % (kind, r, B, vlab),
+                            "%d stored points on an axis of %d points" % (x.shape[0], nc))
+            what = "state %s, axis step x%d, %d sub-steps (%s), basis %s" % (tag, m, k, via, B)
+            if "tensor" in g:
+                sc = max(1.0, float(numpy.max(numpy.abs(g["tensor"]))))
+                if "op" in g:
+                    if td:
+                        key = "b/refine/td/coarser-propagation-axis/op-vs-tensor/%s/%s" % (B, vlab)
+                    else:
+                        key = "b/refine/%s/%s/%s/op-vs-tensor" % (kind, B, vlab)
+                    acc.same(key, "b.refine.forms", g["op"], g["tensor"],
+                             "operator form vs four-index form: " + what, scale=sc)
+                if "conv" in g:
+                    acc.same("b/refine/%s/%s/%s/converted-vs-tensor" % (kind, B, vlab),
+                             "b.refine.forms", g["conv"], g["tensor"],
+                             "converted form vs four-index form: " + what, scale=sc)
+            elif "op" in g and "conv" in g:
+                sc = max(1.0, float(numpy.max(numpy.abs(g["op"]))))
+                acc.same("b/refine/%s/%s/%s/op-vs-converted" % (kind, B, vlab),
+                         "b.refine.forms", g["op"], g["conv"],
+                         "operator form vs converted form: " + what, scale=sc)
+            if td and (k != m or cut != "nocut"):
+                # sub-steps longer than the bath step sample another set of tensor values;
+                # with a cut-off time the propagator freezes the tensor at the index the
+                # cut-off time has on ITS axis: neither is a statement of the property
+                continue
+            for r in g:
+                res = _arr(objs[(vlab, tag, r)].data)
+                if r in base.get(tag, {}):
+                    fine = _arr(base[tag][r].data)[pick]
+                    acc.same("b/refine/%s/%s/%s/%s/differs-from-fine-axis-run"
+                             % (kind, r, B, vlab), "b.refine.consistency", res, fine,
+                             "%s form, %s: stored points vs the same points of the run with "
+                             "Nref = 1 on the axis of the sub-steps" % (r, what),
+                             scale=max(1.0, float(numpy.max(numpy.abs(fine)))))
+                if tag in ref:
+                    acc.same("b/refine-absolute/%s/%s/%s/%s" % (kind, r, B, vlab),
+                             "b.refine.absolute", res, ref[tag][pick], "%s form, %s vs Taylor "
+                             "polynomial of the reference Liouvillian" % (r, what),
+                             scale=max(1.0, float(numpy.max(numpy.abs(ref[tag])))))
+
+
 def _check_propagation(acc, kind, forms, conv, ham, Xop, N, prop, Tref, td=False):
     """forms: {"op": T, "tensor": T}; conv: {basis: converted tensor} (used in its own basis).
     Every propagation of the spanning set is done with all forms in all bases (one fresh
@@ -459,6 +621,18 @@ def _check_propagation(acc, kind, forms, conv, ham, Xop, N, prop, Tref, td=False
                                            L=prop.get("L", 4), nref=nref)
     cut = "cutoff" if prop.get("cutoff") else "nocut"
     hist = int(prop.get("hist", 2))
+    # step-refinement variants: one propagator per (variant, route) on the coarser axis (a
+    # requested refinement stays with the propagator object), created like the base ones
+    # before the first context is entered
+    variants = []
+    if prop.get("refine") and nref == 1:
+        for var in _refinements(td):
+            nc = _coarse_length(ta.length, var[0], prop["refine"].get("ncmax"), ta.step,
+                                prop.get("cutoff") if td else None)
+            tac = systems.time_axis(nc, var[0] * ta.step)
+            vp = {k: ReducedDensityMatrixPropagator(tac, ham, T) for k, T in forms.items()}
+            vc = {B: ReducedDensityMatrixPropagator(tac, ham, T) for B, T in conv.items()}
+            variants.append((var, _vlab(var, td), nc, vp, vc))
     # initial states of the shared-object histories: (storage label, matrix, sequence length)
     gen = _general_state(N)
     gens = [("complex", gen, hist),
@@ -502,6 +676,10 @@ def _check_propagation(acc, kind, forms, conv, ham, Xop, N, prop, Tref, td=False
                 acc.same("b/absolute/%s/%s/%s" % (kind, k, B), "b.absolute", _arr(ev.data),
                          ref[tag], "state %s propagated with the %s form in basis %s vs Taylor "
                          "polynomial of the reference Liouvillian" % (tag, k, B), scale=sc)
+        # ---- step refinement: all routes again, on the coarser axes --------------------
+        if variants:
+            _check_refined(acc, kind, B, variants, B, states, dict(keep), ref, ham, Xop,
+                           kwargs, cut, td)
         # ---- one initial-state OBJECT handed to several propagations -------------------
         # expected result of route k for the general state: linear combination of the
         # spanning-set results of that route (all read after the context is left: gauge free)
@@ -579,7 +757,8 @@ def eval_redfield(case):
     S = _System(case)
     prop = {"ta": S.ta, "H": S.hmatrix(), "L": {"short-exp": 4, "short-exp-2": 2,
                                                "short-exp-6": 6}[case["method"]],
-            "method": case["method"], "nref": case["nref"], "hist": case.get("hist", 2)}
+            "method": case["method"], "nref": case["nref"], "hist": case.get("hist", 2),
+            "refine": _refine_spec(case)}
     Tref = _check_forms(acc, "redfield", lambda: S.tensor(False, True),
                         lambda: S.tensor(False, False), S.ham, S.Xop, S.N, _ref_redfield, prop)
     # non-secular content: the tensor couples populations and coherences
@@ -627,7 +806,8 @@ def eval_lindblad(case):
 
     ta = systems.time_axis(case["nt"], case["dt"])
     H = numpy.array(ham.data, dtype=float, copy=True)
-    prop = {"ta": ta, "H": H, "L": 4, "method": None, "nref": 1, "hist": case.get("hist", 2)}
+    prop = {"ta": ta, "H": H, "L": 4, "method": None, "nref": 1, "hist": case.get("hist", 2),
+            "refine": _refine_spec(case)}
     Tref = RA.gksl_tensor(Ks, rates, N)
     _check_forms(acc, "lindblad", lambda: LindbladForm(ham, sbi(), as_operators=True),
                  lambda: LindbladForm(ham, sbi(), as_operators=False), ham, Xop, N,
@@ -707,7 +887,7 @@ def eval_td(case):
 
     # ---- (b) propagation -----------------------------------------------------------
     prop = {"ta": S.ta, "H": None, "L": 4, "method": None, "nref": 1, "cutoff": cutoff,
-            "hist": case.get("hist", 2)}
+            "hist": case.get("hist", 2), "refine": _refine_spec(case)}
     _check_propagation(acc, "td", {"op": TDo, "tensor": TDt}, conv, ham, Xop, N, prop, None,
                        td=True)
     return {"nontrivial": _nontrivial_system(case),
@@ -733,11 +913,13 @@ def _deph_M(case):
     return 10 if case["matsubara"] is None else int(case["matsubara"])
 
 
-def _deph_run(case, nt, dt, acc, again=False):
+def _deph_run(case, nt, dt, acc, again=False, refine=False):
     """Propagate the uniform superposition with the TD Redfield tensor; return per coherence
     (label, numerical, exact, bound) and the population deviation.  The initial-state object
     must come back bit-identical; again=True: it is propagated a second time and must give the
-    same dynamics."""
+    same dynamics.  refine=True: the same tensor (bath axis (nt, dt)) is also propagated on the
+    axes with the step m*dt with Nref = m sub-steps, m in NREFS, requested in both ways; returned
+    as {label: (m, evolution)}."""
     from quantarhei.qm import ReducedDensityMatrixPropagator, ReducedDensityMatrix
     w = [float(x) for x in case["w"]]
     n = len(w)
@@ -763,26 +945,59 @@ def _deph_run(case, nt, dt, acc, again=False):
                  "%s) vs the first" % case["form"], scale=1.0)
         _unchanged(acc, "d/%s/alters-initial-state" % case["form"], before, rho,
                    "TD tensor as %s, second call" % case["form"])
+    refined = {}
+    if refine:
+        for m in NREFS:
+            if (nt - 1) % m:
+                raise isolation.HarnessError("refined axis does not end with the bath axis")
+            for via in VIAS:
+                vlab = _vlab((m, m, via), True)
+                rho_v = ReducedDensityMatrix(data=numpy.full((N, N), 1.0 / N,
+                                                             dtype=numpy.complex128))
+                Pv = ReducedDensityMatrixPropagator(systems.time_axis((nt - 1) // m + 1, m * dt),
+                                                    S.ham, TD)
+                if via == "set":
+                    Pv.setDtRefinement(m)
+                    evv = Pv.propagate(rho_v)
+                else:
+                    evv = Pv.propagate(rho_v, Nref=m)
+                _unchanged(acc, "d/%s/alters-initial-state/%s" % (case["form"], vlab), before,
+                           rho_v, "TD tensor as %s, axis step x%d with %d sub-steps (%s)"
+                           % (case["form"], m, m, via))
+                refined[vlab] = (m, _arr(evv.data))
     t = numpy.array(S.ta.data, dtype=float)
     M = _deph_M(case)
     bt = [(lam, tau, float(case["T"]), M) for (lam, tau) in _deph_baths(case)]
     out = []
+    rout = {vlab: [] for vlab in refined}
+
+    def add(label, i, j, ex, bnd, expo):
+        out.append((label, ev[:, i, j], ex, bnd, expo))
+        # the k = m sub-steps are the steps of the bath axis: exact solution and bound of the
+        # axis (nt, dt) at the stored points
+        for vlab, (mm, evv) in refined.items():
+            rout[vlab].append((label, evv[:, i, j], ex[::mm], bnd[::mm], expo[::mm]))
+
     for m in range(n):
         ex = LS.coherence(t, w[m], [bt[m]]) / N
         bnd, D, E = LS.first_order_bound(t, dt, w[m], [bt[m]], L=4)
         expo = numpy.abs(w[m] * LS.CM2INT * t) + numpy.abs(LS.g(t, *bt[m]))
-        out.append(("site%d-ground" % m, ev[:, m + 1, 0], ex, bnd, expo))
-        out.append(("ground-site%d" % m, ev[:, 0, m + 1], numpy.conj(ex), bnd, expo))
+        add("site%d-ground" % m, m + 1, 0, ex, bnd, expo)
+        add("ground-site%d" % m, 0, m + 1, numpy.conj(ex), bnd, expo)
         for k in range(m + 1, n):
             ex = LS.coherence(t, w[m] - w[k], [bt[m]], [bt[k]]) / N
             bnd, D, E = LS.first_order_bound(t, dt, w[m] - w[k], [bt[m], bt[k]], L=4)
             expo = (numpy.abs((w[m] - w[k]) * LS.CM2INT * t) + numpy.abs(LS.g(t, *bt[m]))
                     + numpy.abs(LS.g(t, *bt[k])))
-            out.append(("site%d-site%d" % (m, k), ev[:, m + 1, k + 1], ex, bnd, expo))
-            out.append(("site%d-site%d" % (k, m), ev[:, k + 1, m + 1], numpy.conj(ex), bnd,
-                        expo))
+            add("site%d-site%d" % (m, k), m + 1, k + 1, ex, bnd, expo)
+            add("site%d-site%d" % (k, m), k + 1, m + 1, numpy.conj(ex), bnd, expo)
     pops = numpy.array([ev[:, i, i] for i in range(N)]).T
     pdev = float(numpy.max(numpy.abs(pops - 1.0 / N)))
+    if refine:
+        rpdev = {vlab: float(numpy.max(numpy.abs(numpy.array([evv[:, i, i] for i in range(N)])
+                                                 - 1.0 / N)))
+                 for vlab, (mm, evv) in refined.items()}
+        return out, pdev, N, rout, rpdev
     return out, pdev, N
 
 
@@ -790,9 +1005,43 @@ def eval_dephasing(case):
     acc = _Acc()
     form = case["form"]
     nt, dt = case["nt"], case["dt"]
-    coarse, pdev1, N = _deph_run(case, nt, dt, acc, again=True)
+    rout, rpdev = {}, {}
+    if case.get("refine"):
+        coarse, pdev1, N, rout, rpdev = _deph_run(case, nt, dt, acc, again=True, refine=True)
+    else:
+        coarse, pdev1, N = _deph_run(case, nt, dt, acc, again=True)
     fine, pdev2, _ = _deph_run(case, 2 * nt - 1, dt / 2.0, acc)
     digest = []
+    # step refinement: the axis with the step m*dt and m sub-steps does the steps of the bath
+    # axis (nt, dt); the analytic solution and the first-order bound of that axis apply
+    pre = ("d/operators/coarser-propagation-axis" if form == "operators"
+           else "d/%s/refined" % form)
+    for vlab in sorted(rout):
+        for (lab, nu, e, b, xp) in rout[vlab]:
+            kind = "optical" if "ground" in lab else "intersite"
+            acc.n += 1
+            if nu.shape != e.shape:
+                acc.add("%s/%s/stored-points" % (pre, vlab), "%d stored points, %d expected"
+                        % (nu.shape[0], e.shape[0]))
+                continue
+            err = numpy.abs(nu - e)
+            tol = numpy.abs(e) * (b + LS.UNIT_RTOL * xp) + RTOL / N
+            ratio = float(numpy.max(err / tol))
+            acc.worst("d.refine.err/bound", ratio)
+            if not numpy.all(numpy.isfinite(nu)) or ratio > 1.0:
+                i = int(numpy.argmax(err / tol))
+                acc.add("%s/%s/%s/exceeds-first-order-bound" % (pre, vlab, kind),
+                        "coherence %s, TD tensor as %s on the axis with the step %g fs, %s: "
+                        "|rho_num - exp(-iwt-g(t))/N| = %.3g at stored step %d exceeds the "
+                        "bound %.3g of the sub-step %g fs (|exact| = %.3g)"
+                        % (lab, form, dt * (nt - 1) / max(1, nu.shape[0] - 1), vlab, err[i], i,
+                           tol[i], dt, abs(e[i])),
+                        {"err": float(err[i]), "tol": float(tol[i])})
+        acc.n += 1
+        acc.worst("d.populations", rpdev[vlab] * N)
+        if not rpdev[vlab] <= RTOL / N * 10:
+            acc.add("%s/%s/populations-not-constant" % (pre, vlab),
+                    "populations of uncoupled sites change by %.3g (%s)" % (rpdev[vlab], vlab))
     for (lab, num, ex, bnd, expo), (lab2, num2, ex2, bnd2, expo2) in zip(coarse, fine):
         kind = "optical" if "ground" in lab else "intersite"
         for tag, nu, e, b, xp in (("dt", num, ex, bnd, expo), ("dt/2", num2, ex2, bnd2, expo2)):
@@ -851,6 +1100,10 @@ def replay(case):
 # ---------------------------------------------------------------------------
 # spaces
 # ---------------------------------------------------------------------------
+# stored points of the step-refinement axes (the refined runs do m * (REFNC - 1) sub-steps)
+REFNC = {"quick": 4, "thorough": 8}
+
+
 def _sys_ok(c):
     if c["n"] == 1 and (c["Jpat"] != "none" or c["epat"] != "distinct"):
         return False
@@ -865,7 +1118,8 @@ def redfield_cases(tier):
                "epat": ["distinct", "degenerate", "near"], "Jpat": ["none", "chain", "full"],
                "ftype": ["OverdampedBrownian", "OverdampedBrownian-HighTemperature"],
                "lam_tau": [[20.0, 50.0]], "T": [300.0, 77.0],
-               "method": ["short-exp"], "nref": [1], "nt": [40], "dt": [1.0], "hist": [2]}
+               "method": ["short-exp"], "nref": [1], "nt": [40], "dt": [1.0], "hist": [2],
+               "refnc": [REFNC["quick"]]}
     else:
         dom = {"sec": ["redfield"], "route": ["protocol", "direct", "aggregate"],
                "n": [1, 2, 3, 4],
@@ -873,7 +1127,7 @@ def redfield_cases(tier):
                "ftype": ["OverdampedBrownian", "OverdampedBrownian-HighTemperature"],
                "lam_tau": [[20.0, 50.0], [60.0, 100.0]], "T": [300.0, 77.0],
                "method": ["short-exp", "short-exp-2", "short-exp-6"], "nref": [1, 2],
-               "nt": [60], "dt": [1.0], "hist": [3]}
+               "nt": [60], "dt": [1.0], "hist": [3], "refnc": [REFNC["thorough"]]}
 
     def ok(c):
         if not _sys_ok(c):
@@ -910,7 +1164,7 @@ def lindblad_cases(tier):
             for ops in sets:
                 out.append({"sec": "lindblad", "N": N, "hpat": hpat,
                             "ops": [list(o) for o in ops], "nt": 30, "dt": 2.0,
-                            "hist": 2 if tier == "quick" else 3})
+                            "hist": 2 if tier == "quick" else 3, "refnc": REFNC[tier]})
     out.sort(key=lambda c: (c["N"], len(c["ops"]), c["hpat"] != "diagonal"))
     return out
 
@@ -920,13 +1174,15 @@ def td_cases(tier):
         dom = {"sec": ["td"], "route": ["protocol", "aggregate"], "n": [1, 2],
                "epat": ["distinct", "degenerate"], "Jpat": ["none", "chain", "full"],
                "ftype": ["OverdampedBrownian"], "lam_tau": [[20.0, 50.0]], "T": [300.0, 77.0],
-               "cutoff": [None, 0.5], "nt": [40], "dt": [1.0], "hist": [2]}
+               "cutoff": [None, 0.5], "nt": [40], "dt": [1.0], "hist": [2],
+               "refnc": [REFNC["quick"]]}
     else:
         dom = {"sec": ["td"], "route": ["protocol", "direct", "aggregate"], "n": [1, 2, 3],
                "epat": ["distinct", "degenerate", "near"], "Jpat": ["none", "chain", "full"],
                "ftype": ["OverdampedBrownian", "OverdampedBrownian-HighTemperature"],
                "lam_tau": [[20.0, 50.0], [60.0, 100.0]], "T": [300.0, 77.0],
-               "cutoff": [None, 0.5], "nt": [60], "dt": [1.0], "hist": [3]}
+               "cutoff": [None, 0.5], "nt": [60], "dt": [1.0], "hist": [3],
+               "refnc": [REFNC["thorough"]]}
 
     def ok(c):
         if not _sys_ok(c):
@@ -944,7 +1200,8 @@ def td_cases(tier):
              "n": [2, 3], "epat": ["unsorted"], "Jpat": ["none", "chain"],
              "ftype": ["OverdampedBrownian"], "lam_tau": [[20.0, 50.0]], "T": [300.0],
              "cutoff": [None], "nt": [40 if tier == "quick" else 60], "dt": [1.0],
-             "bathpat": ["sitewise"], "hist": [2 if tier == "quick" else 3]}
+             "bathpat": ["sitewise"], "hist": [2 if tier == "quick" else 3],
+             "refnc": [REFNC[tier]]}
     out += product(extra, _sys_ok)
     return out
 
@@ -955,7 +1212,7 @@ def dephasing_cases(tier):
                "w": [[100.0], [100.0, 260.0]],
                "ftype": ["OverdampedBrownian", "OverdampedBrownian-HighTemperature"],
                "lam_tau": [[20.0, 50.0], [60.0, 100.0]], "T": [300.0, 77.0],
-               "matsubara": [None, 2], "nt": [301], "dt": [1.0]}
+               "matsubara": [None, 2], "nt": [301], "dt": [1.0], "refine": [True]}
     else:
         dom = {"sec": ["dephasing"], "route": ["protocol", "direct", "aggregate"],
                "form": ["tensor", "operators"],
@@ -963,7 +1220,8 @@ def dephasing_cases(tier):
                "ftype": ["OverdampedBrownian", "OverdampedBrownian-HighTemperature"],
                "lam_tau": [[20.0, 50.0], [60.0, 100.0], [120.0, 80.0]],
                "T": [300.0, 150.0, 77.0],
-               "matsubara": [None, 0, 2, 30], "nt": [301, 601], "dt": [1.0, 2.0]}
+               "matsubara": [None, 0, 2, 30], "nt": [301, 601], "dt": [1.0, 2.0],
+               "refine": [True]}
 
     def ok(c):
         if c["ftype"] != "OverdampedBrownian" and c["matsubara"] is not None:
@@ -1005,7 +1263,11 @@ def run(run):
                 "and after conversion done in each of the 3 bases; x all sequences of `hist` "
                 "(2 quick / 3 thorough) propagation routes {operator, four-index, converted form} "
                 "run on ONE initial-state object (general state) in each basis; after every "
-                "propagate() the caller's initial state must be bit-identical.  Non-trivial: "
+                "propagate() the caller's initial state must be bit-identical; x step "
+                "refinement: Nref in {1, 2, 5} x {propagate(rho, Nref=k), setDtRefinement(k)} "
+                "for all three routes in the 3 bases on the axes with the step m*dt, m in "
+                "{2, 5} (time-dependent tensors: every admissible pair (m, Nref), Nref | m), "
+                "whole spanning set.  Non-trivial: "
                 "redfield/td = "
                 "resonance coupling != 0 (eigenbasis differs from the site basis); lindblad = "
                 "coupled Hamiltonian and at least one projector with i != j; dephasing = "
@@ -1026,6 +1288,18 @@ def run(run):
         "built by the package (mc/refmodels/lineshape_ob.py); admissible axes: dt <= tau_c/25 "
         "and nu_M dt <= 2 pi (all Matsubara terms representable on the grid)",
         "X = fixed real symmetric matrix with simple spectrum (relax_action.probe_operator)",
+        "step refinement: Nref = k on the axis (N, k*dt) is DEFINED (setDtRefinement docstring) "
+        "as the calculation with the step dt stored every k-th point; for a time-independent "
+        "generator it is therefore compared (class R) with the run with Nref = 1 on the axis of "
+        "the sub-steps, of which the first k*(N-1)+1 points of the longer base run are a "
+        "prefix (the scheme is causal); for time-dependent tensors route agreement is claimed "
+        "on propagation axes 2x and 5x coarser than the bath axis (the four-index routine "
+        "refuses a refinement on the bath axis itself) and the same consistency only where the "
+        "sub-steps are the bath steps (Nref = axis ratio) and no cut-off time is set (the "
+        "propagator looks the cut-off time up on its own axis and freezes the tensor at that "
+        "index of the bath axis: with a cut-off the refined run is NOT the bath-axis run, "
+        "observed, not claimed either way); shared-initial-state histories are not multiplied "
+        "with the refinements",
         "shared-initial-state histories use one general initial state (full rank, all elements "
         "non-zero, complex128) and its real part stored as float64 (sequences of hist - 1 "
         "calls); the fresh-object result is tied to the spanning set by "
@@ -1038,6 +1312,10 @@ def run(run):
                                  "halving_ratio_min": HALVING},
                   "cases": {k: len(v) for k, v in secs},
                   "bases": list(BASES),
+                  "refinements": {"time_independent": [_vlab(v, False)
+                                                       for v in _refinements(False)],
+                                  "time_dependent": [_vlab(v, True) for v in _refinements(True)],
+                                  "stored_points_of_refined_axes": REFNC[run.tier]},
                   "shared_initial_state_sequences": {"quick": 9, "thorough": 27}[run.tier]}
     worst = {}
     for sect, cs in secs:
